@@ -312,6 +312,7 @@ def run(ck, facts, tier):
     sites = []
     for f in sorted(fns, key=lambda x: x.id):
         sites += panics.sites_of(f)
+    panics.controls(ck, "R6.4")
     panics.classify(facts, sites, PANIC_TABLE)
     for s in sites:
         if s.kind == "validator-call":
